@@ -88,6 +88,7 @@ static T0: std::sync::OnceLock<std::time::Instant> = std::sync::OnceLock::new();
 static WATCHDOG: Once = Once::new();
 thread_local! {
     static MY_SLOT: std::cell::Cell<usize> = const { std::cell::Cell::new(usize::MAX) };
+    static CALLS: std::cell::Cell<u64> = const { std::cell::Cell::new(0) };
 }
 fn slots() -> &'static Vec<Slot> {
     SLOTS.get_or_init(|| (0..512).map(|_| Slot { start_ms: std::sync::atomic::AtomicU64::new(0), ctx: std::sync::Mutex::new(String::new()) }).collect())
@@ -114,20 +115,26 @@ pub fn note_input(text: &str) {
 
 fn start_watchdog() {
     WATCHDOG.call_once(|| {
-        let limit_ms: u64 = 1000 * std::env::var("OQ3V_HANG_SECS").ok().and_then(|s| s.parse().ok()).unwrap_or(30u64);
+        let limit_s: u64 = std::env::var("OQ3V_HANG_SECS").ok().and_then(|s| s.parse().ok()).unwrap_or(30u64);
         let _ = now_ms();
-        std::thread::spawn(move || loop {
-            std::thread::sleep(std::time::Duration::from_millis(250));
-            let now = now_ms();
-            for s in slots().iter() {
-                let st = s.start_ms.load(std::sync::atomic::Ordering::Relaxed);
-                if st != 0 && now.saturating_sub(st) >= limit_ms {
-                    let ctx = s.ctx.lock().map(|c| c.clone()).unwrap_or_default();
-                    let path = std::env::var("OQ3V_HANG_FILE").unwrap_or_else(|_| "oq3v_hang.json".into());
-                    let secs = (now - st) / 1000;
-                    let _ = std::fs::write(&path, serde_json::to_string(&json!({"hang": true, "secs": secs, "input": ctx})).unwrap());
-                    eprintln!("oq3v: the code under test did not return within {secs}s; input written to {path}");
-                    std::process::exit(3);
+        std::thread::spawn(move || {
+            // Time is counted in the watchdog's own ticks, not on the wall clock: if the whole process (or machine) is frozen for a
+            // while - a sandbox snapshot did that once and produced a false alarm - the watchdog does not tick either.  A call is
+            // reported when the SAME call (same start stamp) has been seen running for limit_s * 4 consecutive ticks of >= 250 ms.
+            let need = (limit_s * 4) as u32;
+            let mut seen: Vec<(u64, u32)> = vec![(0, 0); slots().len()];
+            loop {
+                std::thread::sleep(std::time::Duration::from_millis(250));
+                for (i, s) in slots().iter().enumerate() {
+                    let st = s.start_ms.load(std::sync::atomic::Ordering::Relaxed);
+                    if st != 0 && st == seen[i].0 { seen[i].1 += 1; } else { seen[i] = (st, 0); }
+                    if st != 0 && seen[i].1 >= need {
+                        let ctx = s.ctx.lock().map(|c| c.clone()).unwrap_or_default();
+                        let path = std::env::var("OQ3V_HANG_FILE").unwrap_or_else(|_| "oq3v_hang.json".into());
+                        let _ = std::fs::write(&path, serde_json::to_string(&json!({"hang": true, "secs": limit_s, "input": ctx})).unwrap());
+                        eprintln!("oq3v: the code under test did not return within {limit_s}s; input written to {path}");
+                        std::process::exit(3);
+                    }
                 }
             }
         });
@@ -139,7 +146,9 @@ pub fn guarded<T>(f: impl FnOnce() -> T) -> Result<T, Value> {
     install_hook();
     start_watchdog();
     let slot = my_slot();
-    slot.start_ms.store(now_ms(), std::sync::atomic::Ordering::Relaxed);
+    // the stamp identifies this call: time in the high bits, a per-thread call counter in the low 20 bits
+    let stamp = (now_ms() << 20) | (CALLS.with(|c| { let v = c.get().wrapping_add(1); c.set(v); v }) & 0xFFFFF);
+    slot.start_ms.store(stamp, std::sync::atomic::Ordering::Relaxed);
     struct Done(&'static Slot);
     impl Drop for Done {
         fn drop(&mut self) {
